@@ -347,3 +347,14 @@ func replayMain(p *Prop, path string) int {
 	fmt.Printf("VIOLATION property=%s replay=%s\n", p.ID, path)
 	return 1
 }
+
+// EnvInt is exported for test helpers.
+func EnvInt(name string, def int) int { return envInt(name, def) }
+
+// WriteReplay writes a scenario as a replay file (no recorded violation).
+func WriteReplay(p *Prop, sc any, path string) {
+	scb, _ := json.Marshal(sc)
+	rp := Replay{Property: p.ID, Scenario: scb}
+	b, _ := json.MarshalIndent(rp, "", " ")
+	_ = os.WriteFile(path, b, 0o644)
+}
